@@ -58,8 +58,9 @@ func handleFor(id sop.UUID, v int) sop.Handle {
 	return h
 }
 
-// ids: A (slot 3), B (slot 10), C (slot 65, next to the CRC), all in block 7
-var ids = []sop.UUID{makeID(7, 3, 1), makeID(7, 10, 2), makeID(7, 65, 3)}
+// ids: A (slot 3), B (slot 10), C (slot 65, next to the CRC), all in block 7; D (slot 5) in block 9, which no
+// write has ever touched before the writer under test adds D (its pre-image, and so its backup, is all zeros)
+var ids = []sop.UUID{makeID(7, 3, 1), makeID(7, 10, 2), makeID(7, 65, 3), makeID(9, 5, 4)}
 
 func openReg(dir string, rw bool) (fs.Registry, sop.L2Cache) {
 	l2 := cache.NewL2InMemoryCache()
@@ -133,7 +134,7 @@ func writer(dir string, pl plan) {
 	reg, _ := openReg(dir, true)
 	ctx := context.Background()
 	// pre-state: all three ids at version 1 (committed by completed writes)
-	for _, id := range ids {
+	for _, id := range ids[:3] {
 		if err := reg.Add(ctx, hp(handleFor(id, 1))); err != nil {
 			fmt.Println("@@FATAL add:", err)
 			os.Exit(3)
@@ -199,6 +200,8 @@ func writer(dir string, pl plan) {
 		err = reg.Update(ctx, hp(handleFor(ids[1], 2)))
 	case "remove-A":
 		err = reg.Remove(ctx, ip(ids[0]))
+	case "add-D-into-fresh-block":
+		err = reg.Add(ctx, hp(handleFor(ids[3], 1)))
 	}
 	res := map[string]any{"err": fmt.Sprint(err), "events": events}
 	b, _ := json.Marshal(res)
@@ -258,8 +261,8 @@ func main() {
 	root := fmt.Sprintf("/dev/shm/verif_regx_%d", os.Getpid())
 	os.MkdirAll(root, 0o755)
 	defer os.RemoveAll(root)
-	variants := []string{"update-A", "update-C-next-to-crc", "update-with-locks-B", "remove-A"}
-	newVer := map[string][]int{"update-A": {2, 1, 1}, "update-C-next-to-crc": {1, 1, 2}, "update-with-locks-B": {1, 2, 1}, "remove-A": {-1, 1, 1}}
+	variants := []string{"update-A", "update-C-next-to-crc", "update-with-locks-B", "remove-A", "add-D-into-fresh-block"}
+	newVer := map[string][]int{"update-A": {2, 1, 1, -1}, "update-C-next-to-crc": {1, 1, 2, -1}, "update-with-locks-B": {1, 2, 1, -1}, "remove-A": {-1, 1, 1, -1}, "add-D-into-fresh-block": {1, 1, 1, 1}}
 	var cases []caseT
 	var info []map[string]any
 	for _, v := range variants {
@@ -318,7 +321,7 @@ func main() {
 				add(j)
 			}
 			// every byte position inside the slot this writer changes (a torn record)
-			slot := map[string]int{"update-A": 3, "update-C-next-to-crc": 65, "update-with-locks-B": 10, "remove-A": 3}[v]
+			slot := map[string]int{"update-A": 3, "update-C-next-to-crc": 65, "update-with-locks-B": 10, "remove-A": 3, "add-D-into-fresh-block": 5}[v]
 			for j := slot * 62; j <= slot*62+62; j++ {
 				add(j)
 			}
@@ -396,7 +399,7 @@ func main() {
 		}(i)
 	}
 	wg.Wait()
-	old := []int{1, 1, 1}
+	old := []int{1, 1, 1, -1}
 	eq := func(a, b []int) bool { return fmt.Sprint(a) == fmt.Sprint(b) }
 	fired := 0
 	outcomes := map[string]int{}
